@@ -35,7 +35,7 @@ def public_task(t, member_ids):
     }
 
 
-WBS_ATTR_NAMES = graph.CUSTOM_NAMES + ('critical_path', 'print', 'remove_all')
+WBS_ATTR_NAMES = graph.CUSTOM_NAMES + ('critical_path', 'print', 'remove_all', 'focus', 'on_change')
 
 
 def wattr_view(w):
@@ -43,12 +43,36 @@ def wattr_view(w):
     carries: the value the user stored must come back, not the method)"""
     out = []
     for k in WBS_ATTR_NAMES:
-        v = getattr(w, k, '<absent>')
-        if callable(v):
-            v = '<absent>'        # the class's own method: nothing was stored under that name
-        if v != '<absent>':
-            out.append((k, repr(v)))
-    return tuple(sorted(out))
+        v = getattr(w, k, _ABSENT)
+        if v is _ABSENT:
+            continue
+        if getattr(v, '__self__', None) is w and getattr(type(w), k, None) is getattr(v, '__func__', _ABSENT):
+            continue              # the class's own method: nothing was stored under that name
+        # values are carried over as they are: functions, classes and task lists by identity, plain values by their text
+        out.append((k, ('object', id(v)) if callable(v) else repr(v)))
+    return tuple(sorted(out, key=repr))
+
+
+_ABSENT = object()
+
+
+def _wattr_value(w, v):
+    """JSON-able markers for attribute values that are objects"""
+    if v == '#function':
+        return _a_function
+    if v == '#class':
+        return _AClass
+    if v == '#tasklist':
+        return w.tasks(lambda t: True)      # a pjplan task list kept on the plan ("the tasks I am looking at")
+    return v
+
+
+def _a_function(x=None):
+    return x
+
+
+class _AClass:
+    pass
 
 
 def describe(w):
@@ -99,7 +123,7 @@ def prepare(case):
             setattr(t, k, v)
     for i, w in enumerate(u.wbss):
         for k, v in (case['wattrs'][i] if i < len(case['wattrs']) else {}).items():
-            setattr(w, k, v)
+            setattr(w, k, _wattr_value(w, v))
     for op in case['ops']:
         try:
             execute(u, op)
@@ -319,6 +343,10 @@ def gen_case(rnd, tier='quick'):
     n = len(spec['tasks'])
     attrs = [({'x': rnd.choice([None, 'a', 5])} if rnd.random() < 0.5 else {}) for _ in range(n)]
     for a_ in attrs:
+        if rnd.random() < 0.3:
+            a_['estimate'] = rnd.choice([0, 0.0, 3, 2.5])       # 0 is a value, not "nothing"
+        if rnd.random() < 0.2:
+            a_['spent'] = rnd.choice([0, 0.0, 1])
         if rnd.random() < 0.1:
             a_[rnd.choice(['cost center', '2nd reviewer'])] = rnd.choice([1, 'me', None])     # e.g. a CSV column title
     wattrs = [({'note': rnd.choice(['n', 3]), 'owner': 'me'} if rnd.random() < 0.5 else {}) for _ in spec['wbs']]
@@ -326,6 +354,9 @@ def gen_case(rnd, tier='quick'):
         if rnd.random() < 0.15:
             # a result stored on the plan under the name of the method that produced it
             wa_[rnd.choice(['critical_path', 'print', 'remove_all'])] = rnd.choice([5, 'cached', (1, 2)])
+    for wa_ in wattrs:
+        if rnd.random() < 0.15:
+            wa_[rnd.choice(['focus', 'on_change'])] = rnd.choice(['#function', '#class', '#tasklist'])
     # a prefix that mostly builds structure: attach, link, move
     u = Universe(spec)
     ops = []
